@@ -5,6 +5,7 @@ import (
 	"io"
 	"net"
 	"os"
+	"strings"
 	"sync"
 	"syscall"
 	"time"
@@ -22,20 +23,21 @@ type memConn struct {
 	cond *sync.Cond
 	peer *memConn
 
-	inbox       []byte // bytes written by the peer, not yet read
-	peerClosed  bool   // peer closed its end: reads drain then EOF
-	closed      bool   // this end was closed
-	closeCount  int
-	readDL      time.Time
-	writeDL     time.Time
-	tap         []byte // everything this end wrote successfully
-	writeCalls  [][]byte
-	readChunk   func(avail int) int // max bytes to return from one Read (nil: all)
-	ops         int                 // transport operations performed so far (reads+writes)
-	plan        *faultPlan
-	writeGate   chan struct{} // when non-nil, Write blocks until it is closed (stall)
-	inWrite     int           // writers currently parked at the gate
-	afterWrites int           // bytes accepted after Close frame detection (diagnostics)
+	inbox         []byte // bytes written by the peer, not yet read
+	peerClosed    bool   // peer closed its end: reads drain then EOF
+	closed        bool   // this end was closed
+	closeCount    int
+	readDL        time.Time
+	writeDL       time.Time
+	tap           []byte // everything this end wrote successfully
+	writeCalls    [][]byte
+	readChunk     func(avail int) int // max bytes to return from one Read (nil: all)
+	ops           int                 // transport operations performed so far (reads+writes)
+	plan          *faultPlan
+	writeAttempts int
+	writeGate     chan struct{} // when non-nil, Write blocks until it is closed (stall)
+	inWrite       int           // writers currently parked at the gate
+	afterWrites   int           // bytes accepted after Close frame detection (diagnostics)
 }
 
 type faultKind int
@@ -47,7 +49,10 @@ const (
 	faultEOF               // a read returns io.EOF (peer vanished) / a write returns EPIPE
 	faultTimeout           // the call fails with a deadline error (a net.Error whose Timeout() is true)
 	faultReset             // the call fails with *net.OpError{ECONNRESET}, as a TCP reset does
+	faultLongErr           // the call fails with an error whose text is longer than a control frame can carry
 )
+
+var errInjectedLong = errors.New("verif: injected transport fault with a very long description " + strings.Repeat("0123456789", 20))
 
 // err is what a failed operation of this plan returns
 func (pl *faultPlan) err(op string) error {
@@ -56,6 +61,8 @@ func (pl *faultPlan) err(op string) error {
 		return os.ErrDeadlineExceeded
 	case faultReset:
 		return &net.OpError{Op: op, Net: "mem", Err: syscall.ECONNRESET}
+	case faultLongErr:
+		return errInjectedLong
 	}
 	return errInjected
 }
@@ -138,6 +145,7 @@ func (c *memConn) Read(p []byte) (int, error) {
 
 func (c *memConn) Write(p []byte) (int, error) {
 	c.mu.Lock()
+	c.writeAttempts++
 	if c.closed {
 		c.mu.Unlock()
 		return 0, net.ErrClosed
@@ -347,6 +355,13 @@ func (c *memConn) WaitStalled(n int, d time.Duration) bool {
 		c.mu.Lock()
 	}
 	return true
+}
+
+// WriteAttempts: how many times Write has been called on this end, whatever the outcome
+func (c *memConn) WriteAttempts() int {
+	c.mu.Lock()
+	defer c.mu.Unlock()
+	return c.writeAttempts
 }
 
 // PlanFired: the fault plan has failed one of this endpoint's operations
